@@ -175,6 +175,7 @@ type Exec struct {
 	curRun      *runInfo
 	curCExpr    *CExpr
 	seqApps     []seqApp
+	defined     map[string]Term // results of dependency functions defined by axioms
 }
 
 // decide returns the next decision of the current run; ok is false when the
@@ -195,6 +196,7 @@ func NewExec(w *World, c *Contract) *Exec {
 	x := &Exec{w: w, ctx: NewCtx(), top: c, oblNames: map[string]int{}, memSorts: map[string]Sort{}, leafCache: map[string][]leaf{},
 		abstr: map[string]bool{}, inlined: map[string]bool{}, trusted: map[string]bool{}, assumed: map[string]bool{}, litIDs: map[*ast.FuncLit]int{}, bound: map[types.Object]Value{},
 		escCache: map[ast.Node]map[types.Object]bool{}, cbAxioms: map[string]bool{}, globals: map[types.Object]Value{}, parts: map[string]goalParts{}}
+	x.defined = map[string]Term{}
 	x.sizes = types.SizesFor("gc", "amd64")
 	x.opaque = c.Opaque
 	x.topName = funcDisplayName(c)
@@ -1153,6 +1155,14 @@ func (x *Exec) rangeStmt(s *State, fr *Frame, n *ast.RangeStmt, label string) *S
 			}
 		}
 	}
+	keyIsSynthetic := false
+	if keyObj == nil && fr.pkg != nil && fr.pkg.Types != nil {
+		// a loop without an index variable: contracts may name its iteration counter pvc_idx
+		if o := fr.pkg.Types.Scope().Lookup("pvc_idx"); o != nil {
+			keyObj = o
+			keyIsSynthetic = true
+		}
+	}
 	if n.Value != nil {
 		valObj = getObj(n.Value)
 		if valObj == nil {
@@ -1160,6 +1170,32 @@ func (x *Exec) rangeStmt(s *State, fr *Frame, n *ast.RangeStmt, label string) *S
 				unsup("range value is not an identifier")
 			}
 		}
+	}
+	if _, isFunc := xt.Underlying().(*types.Signature); isFunc {
+		// range over an iterator function: an unknown number of iterations, each yielding
+		// unknown values (the iterator is assumed to have no other effect)
+		x.expr(s, fr, n.X)
+		x.note("assumed", "range-over-func iterator "+exprText(x.w.Fset, n.X)+" yields arbitrary values and has no other effect")
+		bindF := func(st *State) {
+			for _, o := range []types.Object{keyObj, valObj} {
+				if o == nil || (o == keyObj && keyIsSynthetic) {
+					continue
+				}
+				v := x.fresh(st, o.Type(), o.Name())
+				x.assumeWF(st, o.Type(), v)
+				if declare {
+					x.declare(st, fr, o, v)
+				} else {
+					x.setVar(st, fr, o, v)
+				}
+			}
+		}
+		condF := func(st *State) Term { return x.ctx.Fresh("iter$more", SBool) }
+		bodyF := func(st *State) *State {
+			bindF(st)
+			return x.stmt(st, fr, n.Body)
+		}
+		return x.loop(s, fr, n, label, condF, bodyF, func(st *State) *State { return st }, []ast.Node{n.Body}, nil)
 	}
 	// hidden index variable
 	idxObj := types.NewVar(n.Pos(), nil, "range$i", types.Typ[types.Int])
@@ -1217,7 +1253,9 @@ func (x *Exec) rangeStmt(s *State, fr *Frame, n *ast.RangeStmt, label string) *S
 		i := st.vars[idxObj].(*Scalar).T
 		if keyObj != nil {
 			kv := &Scalar{T: Resize(i, keyW, true)}
-			if declare {
+			if keyIsSynthetic {
+				st.vars[keyObj] = kv
+			} else if declare {
 				x.declare(st, fr, keyObj, kv)
 			} else {
 				x.setVar(st, fr, keyObj, kv)
@@ -1857,6 +1895,27 @@ func (x *Exec) scanCallWrites(info *types.Info, call *ast.CallExpr, ws *writeSet
 			x.markLvalueAtomic(info, sel.X, ws)
 		}
 		return
+	}
+	if ownStateDependency(fn) != "" {
+		// writes its receiver (and its own heap objects, which the module cannot
+		// read); function literal arguments are scanned by the enclosing Inspect
+		sel, ok := call.Fun.(*ast.SelectorExpr)
+		okArgs := ok
+		for _, a := range call.Args {
+			if _, isSig := info.TypeOf(a).Underlying().(*types.Signature); isSig {
+				if _, isLit := ast.Unparen(a).(*ast.FuncLit); !isLit {
+					okArgs = false
+				}
+			}
+		}
+		if okArgs {
+			if _, isPtr := info.TypeOf(sel.X).Underlying().(*types.Pointer); isPtr {
+				x.markLvalue(info, &ast.StarExpr{X: sel.X}, ws)
+			} else {
+				x.markLvalue(info, sel.X, ws)
+			}
+			return
+		}
 	}
 	if c, ok := x.w.Contracts[fn]; ok && (len(c.Assigns) > 0 || c.Block.Has("pure")) {
 		for _, a := range c.Assigns {
